@@ -304,6 +304,7 @@ def run_pt(sc, sched, canonical=False, want_trace=False):
     if c.cores < sc["n"]:
         stats["fault_fewer_cores_than_chains"] += 1
     mp = kernel.SimMP(sim)
+    sim.mark_fn = lambda: c.stats["evals_post"]
     # timed-run progress watch: while run_for is in progress and its deadline has not passed, the main
     # task must not keep reading the clock without any posterior evaluation happening anywhere
     watch = dict(deadline=None, idle=0, evals=-1)
@@ -474,12 +475,19 @@ def run_pt(sc, sched, canonical=False, want_trace=False):
                     _viol(V, "shutdown.bounded", "shutdown() took %.3f simulated s (bound %.3f)" % (dur, bound))
     except kernel.Deadlock as e:
         dead = [(t.name, type(t.exc).__name__, str(t.exc)[:300]) for t in sim.tasks if t.exc is not None]
-        if dead:
+        if dead and all(d_[1] == "StepCap" for d_ in dead) and sim.mark_value is not None and c.stats["evals_post"] > sim.mark_value:
+            pass  # (classified after the tear-down below: slow, not hung)
+        elif dead:
             _viol(V, "worker.died", "worker task raised: %r" % dead)
         else:
             _viol(V, "liveness.deadlock", str(e))
     except kernel.StepCap as e:
-        _viol(V, "liveness.stepcap", str(e))
+        if sim.mark_value is not None and c.stats["evals_post"] > sim.mark_value:
+            # the cap on yield points is a resource limit of the harness: chains were still being evaluated during its last
+            # fifth, so the scenario is slow (idle workers poll every 0.05 simulated s while a slow one computes), not hung
+            stats["stepcap_while_still_evaluating_history_ended"] += 1
+        else:
+            _viol(V, "liveness.stepcap", str(e))
     except seams.BusyWait as e:
         _viol(V, "timed.progress", "ParallelTempering.run_for stopped stepping before its time budget was used up: %s" % e)
     except kernel.Overdue as e:
@@ -494,6 +502,10 @@ def run_pt(sc, sched, canonical=False, want_trace=False):
         c.sim = None
         sim.shutdown_all()
     dead = [(t.name, type(t.exc).__name__, str(t.exc)[:300]) for t in sim.tasks if t.exc is not None]
+    if dead and all(d_[1] == "StepCap" for d_ in dead) and sim.mark_value is not None and c.stats["evals_post"] > sim.mark_value:
+        stats["stepcap_while_still_evaluating_history_ended"] += 1
+        V[:] = [v_ for v_ in V if v_["invariant"] not in ("worker.died", "liveness.deadlock", "liveness.stepcap")]
+        dead = []
     if dead and not V:
         _viol(V, "worker.died", "worker task raised: %r" % dead)
     out["sim_seconds"] = sim.now
